@@ -307,9 +307,14 @@ class Parameter(Term):
 
     def get_sql(self, ctx: SqlContext) -> str:
         if self._placeholder:
-            return self._placeholder
-
-        return self.IDX_PLACEHOLDERS.get(ctx.dialect, lambda _: self.DEFAULT_PLACEHOLDER)(self._idx)
+            sql = self._placeholder
+        else:
+            sql = self.IDX_PLACEHOLDERS.get(ctx.dialect, lambda _: self.DEFAULT_PLACEHOLDER)(
+                self._idx
+            )
+        if ctx.with_alias:
+            return format_alias_sql(sql, getattr(self, "alias", None), ctx)
+        return sql
 
 
 class Parameterizer:
@@ -359,7 +364,10 @@ class Negative(Term):
         return self.term.is_aggregate
 
     def get_sql(self, ctx: SqlContext) -> str:
-        return "-{term}".format(term=self.term.get_sql(ctx))
+        sql = "-{term}".format(term=self.term.get_sql(ctx.copy(with_alias=False)))
+        if ctx.with_alias:
+            return format_alias_sql(sql, self.alias, ctx)
+        return sql
 
 
 class ValueWrapper(Term):
@@ -529,7 +537,10 @@ class Values(Term):
         self.field = Field(field) if not isinstance(field, Field) else field
 
     def get_sql(self, ctx: SqlContext) -> str:
-        return "VALUES({value})".format(value=self.field.get_sql(ctx))
+        sql = "VALUES({value})".format(value=self.field.get_sql(ctx.copy(with_alias=False)))
+        if ctx.with_alias:
+            return format_alias_sql(sql, self.alias, ctx)
+        return sql
 
 
 class LiteralValue(Term):
@@ -656,7 +667,10 @@ class Index(Term):
         self.name = name
 
     def get_sql(self, ctx: SqlContext) -> str:
-        return format_quotes(self.name, ctx.quote_char)
+        sql = format_quotes(self.name, ctx.quote_char)
+        if ctx.with_alias:
+            return format_alias_sql(sql, self.alias, ctx)
+        return sql
 
 
 class Star(Field):
@@ -1053,8 +1067,10 @@ class ComplexCriterion(BasicCriterion):
         )
 
         if ctx.subcriterion:
-            return "({criterion})".format(criterion=sql)
+            sql = "({criterion})".format(criterion=sql)
 
+        if ctx.with_alias:
+            return format_alias_sql(sql, self.alias, ctx)
         return sql
 
     def needs_brackets(self, term: Term) -> bool:
@@ -1720,6 +1736,8 @@ class PseudoColumn(Term):
         self.name = name
 
     def get_sql(self, ctx: SqlContext) -> str:
+        if ctx.with_alias:
+            return format_alias_sql(self.name, self.alias, ctx)
         return self.name
 
 
